@@ -624,6 +624,12 @@ class Unit:
             text, l32 = desugar_str_patterns(text)
             for ln_ in l32:
                 self.desugar_log.append(('D32', '%s: %s' % (e.qualname, ln_)))
+        if getattr(e, 'bool_compound', False):
+            # D36: `X |= E;` / `X &= E;` on bools (Verus has only the short-circuit forms): E is evaluated first, as the original does
+            text, n36 = re.subn(r'(?m)^(\s*)([A-Za-z_][\w.]*)\s*(\|=|&=)\s*([^;\n]+);[ \t]*$',
+                                lambda m_: '%s{ let oq3_b = %s; %s = %s %s oq3_b; }' % (m_.group(1), m_.group(4), m_.group(2), m_.group(2), '||' if m_.group(3) == '|=' else '&&'), text)
+            if n36:
+                self.desugar_log.append(('D36', '%s: %d compound `|=` / `&=` on a bool -> `{ let b = E; X = X || b; }`' % (e.qualname, n36)))
         if re.search(r'\bcontinue\b', text) and re.search(r'\bfor\b', text) and not e.trusted:
             from .inline import desugar_for_continue, drop_tail_continues
             text, n31b = drop_tail_continues(text)
